@@ -1,0 +1,55 @@
+//go:build verif
+
+package utils
+
+import "sync/atomic"
+
+// VerifPolyEvent describes one pass through getPolynomial. It is delivered to
+// VerifPolySink while the polynomial cache's own lock is still held, so the sink may
+// read Polys but must not retain or modify it.
+type VerifPolyEvent struct {
+	Encoder   *ReedSolomonEncoder
+	Field     *GaloisField
+	Degree    int
+	LenBefore int
+	LenAfter  int
+	Waiters   int32     // callers that were between "about to lock" and "lock taken"
+	Polys     []*GFPoly // the cache itself (valid only during the callback)
+}
+
+// VerifPolySink is nil unless a monitor registers itself before any encoder is used.
+// With no sink the hooks read this variable and do nothing else: no synchronisation
+// is added that could hide a data race from the race detector.
+var VerifPolySink func(*VerifPolyEvent)
+
+var verifPolyWaiters int32
+
+func verifPolyWait(rs *ReedSolomonEncoder) {
+	if VerifPolySink == nil {
+		return
+	}
+	atomic.AddInt32(&verifPolyWaiters, 1)
+}
+
+func verifPolyEnter(rs *ReedSolomonEncoder, degree int) int {
+	if VerifPolySink == nil {
+		return 0
+	}
+	atomic.AddInt32(&verifPolyWaiters, -1)
+	return len(rs.polynomes)
+}
+
+func verifPolyLeave(rs *ReedSolomonEncoder, degree int, lenBefore int) {
+	if VerifPolySink == nil {
+		return
+	}
+	VerifPolySink(&VerifPolyEvent{
+		Encoder:   rs,
+		Field:     rs.gf,
+		Degree:    degree,
+		LenBefore: lenBefore,
+		LenAfter:  len(rs.polynomes),
+		Waiters:   atomic.LoadInt32(&verifPolyWaiters),
+		Polys:     rs.polynomes,
+	})
+}
